@@ -338,6 +338,7 @@ RULES = [
 
 LEVEL_TEXT = ("Static rules on MIR: the (mode, device type) decision table extracted from GenericCloud::new equals the documented one; the only "
               "call of the learning routine is under the learning flag with (dissected source address, sending peer); no byte-sequence comparison "
-              "in the dissector has operands of different static length (such a branch is dead: the VLAN-0 fold); tag constants; expiry wiring.")
+              "in the dissector has operands of different static length (such a branch is dead: the VLAN-0 fold); tag constants; expiry wiring."
+              " Only learning sets a cache entry's expiry: who-may-write on CacheValue.timeout, lookup never borrows the cache mutably.")
 LEVEL_NOTE = "Decides C13.R1-R5 (necessary conditions). Not decided: last-writer-wins and per-VLAN separation over frame histories."
 TECHNIQUE = "MIR constant decision-table extraction, static length analysis of comparisons, who-may-call + control dependence, taint"
